@@ -692,6 +692,8 @@ def run(ctx):
     rule_linger_wakeup(ctx)
     rule_fail_all(ctx)
     rule_future_ownership(ctx)
+    from .common import rule_shared_metadata_future
+    rule_shared_metadata_future(ctx, "fail-all")
     from .common import rule_instance_state
     rule_instance_state(ctx, ("aiokafka.producer.",))
     rep.nd("'within bounded time after faults cease' (liveness)")
